@@ -26,9 +26,15 @@ META = {
               "c16:list_ops:plain": 2000,
               "c16:list_ops:value-already-in-same-list": 80,
               "c16:list_ops:value-owned-by-other-ir": 80,
-              "c16:list_ops_raising": 200, "map:ops": 5000,
+              "c16:list_ops_raising": 200,
+              "c16:list_ops_unusable_index_raising": 40, "map:ops": 5000,
               "#op_kinds": 100},
     "assumptions": [
+        "index arguments that are not integers, are integers only through "
+        "__index__, or lie beyond ssize_t are judged by C16's last clause "
+        "alone (a failed call changes nothing, a successful one equals the "
+        "built-in's): which exception CPython raises for them is not "
+        "decided",
         "same-list re-insertion into ir.modules is judged by the weak "
         "contract: no exception the built-in would not raise, elements = "
         "built-in result de-duplicated, untouched elements keep their "
